@@ -22,7 +22,7 @@ type gen struct {
 }
 
 func (g *gen) pick(xs ...string) string { return xs[g.r.Intn(len(xs))] }
-func (g *gen) chance(p float64) bool  { return g.r.Float64() < p }
+func (g *gen) chance(p float64) bool    { return g.r.Float64() < p }
 
 var (
 	varNames  = []string{"a", "b", "c", "d", "n", "s", "v", "w", "err", "ctx"}
@@ -1039,6 +1039,53 @@ func (g *gen) instance(p *pattern, pInconsistent float64) string {
 	return fill(p.frag, p.holes, texts)
 }
 
+// instantiateText replaces metavariable names by their fillers and every
+// elision by an empty run (handling the separators of the common shapes).
+func instantiateText(text string, bind map[string]string) string {
+	for _, r := range [][2]string{{"(...)", "()"}, {", ...)", ")"}, {"(..., ", "("}, {", ..., ", ", "}, {"{...}", "{}"}, {", ...}", "}"}, {"{..., ", "{"}} {
+		text = strings.ReplaceAll(text, r[0], r[1])
+	}
+	var lines []string
+	for _, l := range strings.Split(text, "\n") {
+		if strings.TrimSpace(l) == "..." {
+			continue
+		}
+		lines = append(lines, l)
+	}
+	text = strings.Join(lines, "\n")
+	names := make([]string, 0, len(bind))
+	for n := range bind {
+		names = append(names, n)
+	}
+	sort.Slice(names, func(i, j int) bool { return len(names[i]) > len(names[j]) })
+	for _, n := range names {
+		text = replaceWord(text, n, bind[n])
+	}
+	return text
+}
+
+func replaceWord(s, word, repl string) string {
+	var sb strings.Builder
+	isW := func(c byte) bool {
+		return c == '_' || c >= '0' && c <= '9' || c >= 'a' && c <= 'z' || c >= 'A' && c <= 'Z'
+	}
+	for i := 0; i < len(s); {
+		if strings.HasPrefix(s[i:], word) && (i == 0 || !isW(s[i-1])) && (i+len(word) >= len(s) || !isW(s[i+len(word)])) {
+			sb.WriteString(repl)
+			i += len(word)
+			continue
+		}
+		sb.WriteByte(s[i])
+		i++
+	}
+	return sb.String()
+}
+
+func wrapForParse(k fragKind, frag string) string {
+	src, _ := wrapFrag(k, frag)
+	return src
+}
+
 // nearCopy returns code that differs from t in a single token, preferring the
 // tokens go/ast represents only by the validity of a position.
 func (g *gen) nearCopy(t string) string {
@@ -1095,6 +1142,12 @@ func (g *gen) fileWith(p *pattern, frags []string, pkg string, imports []string)
 		case kExpr:
 			var body string
 			body += g.block(1, 2)
+			if g.chance(0.3) && !strings.HasPrefix(fr, "func") && !strings.HasPrefix(fr, "&") && !strings.HasPrefix(fr, "-") &&
+				!strings.HasPrefix(fr, "!") && !strings.HasPrefix(fr, "*") && !strings.HasPrefix(fr, "<-") && !strings.HasPrefix(fr, "^") &&
+				!strings.Contains(fr, " ") {
+				// the instance as the leftmost part of a longer expression (same start position)
+				fr = fr + g.pick(".Error()", ".Close().Error()", "[0]", "(1)", " + 1", ".x.y", ".Do(fr)", " == nil")
+			}
 			switch g.r.Intn(8) {
 			case 0:
 				body += "_ = " + fr + "\n"
@@ -1148,8 +1201,8 @@ func (g *gen) fileWith(p *pattern, frags []string, pkg string, imports []string)
 }
 
 type importCase struct {
-	patchHead   string   // package / import lines of the patch (with diff prefixes)
-	meta        string   // extra metavariable declarations
+	patchHead   string // package / import lines of the patch (with diff prefixes)
+	meta        string // extra metavariable declarations
 	filePkg     string
 	fileImports []string // import specs of the file, e.g. `f "fmt"`
 	note        string
@@ -1209,75 +1262,90 @@ func (g *gen) importClause(p *pattern) importCase {
 			ic.filePkg = pk
 		}
 	}
-	path := g.pick(importPaths...)
-	// remove the unrelated import of the same path, the guard decides about it
-	var rest []string
-	for _, o := range others {
-		if !strings.HasSuffix(o, `"`+path+`"`) {
-			rest = append(rest, o)
-		}
+	nimp := 1
+	if g.chance(0.4) {
+		nimp = 2
 	}
-	others = rest
-	form := func(kind int, pth string) string {
-		switch kind {
-		case 0:
-			return `"` + pth + `"`
+	usedPaths := map[string]bool{}
+	for ii := 0; ii < nimp; ii++ {
+		path := g.pick(importPaths...)
+		if usedPaths[path] {
+			continue
+		}
+		usedPaths[path] = true
+		// remove the unrelated import of the same path, the guard decides about it
+		var rest []string
+		for _, o := range others {
+			if !strings.HasSuffix(o, `"`+path+`"`) {
+				rest = append(rest, o)
+			}
+		}
+		others = rest
+		mvName := "impname"
+		if ii == 1 {
+			mvName = "impname2"
+		}
+		form := func(kind int, pth string) string {
+			switch kind {
+			case 0:
+				return `"` + pth + `"`
+			case 1:
+				return baseOf(pth) + ` "` + pth + `"`
+			case 2:
+				return `alias "` + pth + `"`
+			case 3:
+				return mvName + ` "` + pth + `"` // metavariable
+			case 4:
+				return `. "` + pth + `"`
+			default:
+				return `_ "` + pth + `"`
+			}
+		}
+		mk := g.r.Intn(7) // 6 = no minus-side import
+		pk := g.r.Intn(7)
+		usesMv := false
+		sign := g.pick("-", " ", "-")
+		if mk < 6 {
+			ic.patchHead += sign + "import " + form(mk, path) + "\n"
+			usesMv = usesMv || mk == 3
+		}
+		if sign == "-" || mk == 6 {
+			if pk < 6 && g.chance(0.7) {
+				np := path
+				if g.chance(0.6) {
+					np = g.pick(importPaths...)
+				}
+				if pk == 3 && mk != 3 {
+					pk = 0
+				}
+				ic.patchHead += "+import " + form(pk, np) + "\n"
+			}
+		}
+		if usesMv {
+			ic.meta += "var " + mvName + " identifier\n"
+		}
+		// file side
+		switch g.r.Intn(8) {
+		case 0: // absent
 		case 1:
-			return baseOf(pth) + ` "` + pth + `"`
+			others = append(others, form(0, path))
 		case 2:
-			return `alias "` + pth + `"`
+			others = append(others, form(1, path))
 		case 3:
-			return `impname "` + pth + `"` // metavariable
+			others = append(others, form(2, path))
 		case 4:
-			return `. "` + pth + `"`
+			others = append(others, form(4, path))
+		case 5:
+			others = append(others, form(5, path))
 		default:
-			return `_ "` + pth + `"`
-		}
-	}
-	mk := g.r.Intn(7) // 6 = no minus-side import
-	pk := g.r.Intn(7)
-	usesMv := false
-	sign := g.pick("-", " ", "-")
-	if mk < 6 {
-		ic.patchHead += sign + "import " + form(mk, path) + "\n"
-		usesMv = usesMv || mk == 3
-	}
-	if sign == "-" || mk == 6 {
-		if pk < 6 && g.chance(0.7) {
-			np := path
-			if g.chance(0.6) {
-				np = g.pick(importPaths...)
+			if mk < 6 && mk != 3 {
+				others = append(others, form(mk, path))
+			} else {
+				others = append(others, form(g.r.Intn(3), path))
 			}
-			if pk == 3 && mk != 3 {
-				pk = 0
-			}
-			ic.patchHead += "+import " + form(pk, np) + "\n"
 		}
-	}
-	if usesMv {
-		ic.meta = "var impname identifier\n"
 	}
 	ic.patchHead += "\n"
-	// file side
-	switch g.r.Intn(8) {
-	case 0: // absent
-	case 1:
-		others = append(others, form(0, path))
-	case 2:
-		others = append(others, form(1, path))
-	case 3:
-		others = append(others, form(2, path))
-	case 4:
-		others = append(others, form(4, path))
-	case 5:
-		others = append(others, form(5, path))
-	default:
-		if mk < 6 && mk != 3 {
-			others = append(others, form(mk, path))
-		} else {
-			others = append(others, form(g.r.Intn(3), path))
-		}
-	}
 	g.r.Shuffle(len(others), func(i, j int) { others[i], others[j] = others[j], others[i] })
 	ic.fileImports = others
 	return ic
@@ -1346,7 +1414,33 @@ func genEngineCases(seed int64, n int, mode string) []Case {
 		note += ic.note
 		patches := []string{patch}
 		var chain []string
-		if g.mode == "c09" {
+		if g.mode == "c09" && g.chance(0.35) {
+			// a concrete chain: change 2 spells out, without metavariables or elisions, the code that
+			// change 1 generates for an instance whose elided runs are empty
+			bind := map[string]string{}
+			for _, h := range p.holes {
+				if h.kind != hDots {
+					bind[h.name] = h.text
+				}
+			}
+			inst1 := instantiateText(p.minus, bind)
+			conc := instantiateText(p.plus, bind)
+			conc2 := g.derivePlus(&pattern{kind: p.kind, minus: conc})
+			if parses(wrapForParse(p.kind, inst1)) && parses(wrapForParse(p.kind, conc)) && conc2 != conc {
+				src = g.fileWith(p, []string{inst1, inst1}, ic.filePkg, ic.fileImports)
+				if parses(src) {
+					second := "@@\n@@\n" + lineDiff(conc, conc2)
+					texts := []string{patch, second}
+					if g.chance(0.5) {
+						patches = []string{strings.Join(texts, "\n")}
+					} else {
+						patches = texts
+					}
+					chain = texts
+					note += " concrete-chain"
+				}
+			}
+		} else if g.mode == "c09" {
 			// a chain: change k+1 matches only what change k produced
 			texts := []string{patch}
 			cur := p
